@@ -414,8 +414,28 @@ func (thisListener *GruleV3ParserListener) EnterExpression(ctx *grulev3.Expressi
 		return
 	}
 	expr := ast.NewExpression()
-	expr.GrlText = ctx.GetText()
+	expr.GrlText = treeText(ctx)
 	thisListener.Stack.Push(expr)
+}
+
+// treeText returns the same text as tree.GetText(). It collects the token texts in one builder, where GetText
+// concatenates strings level by level and so copies a long chain of operators once more for each of its levels.
+func treeText(tree antlr.Tree) string {
+	var buff strings.Builder
+	writeTreeText(tree, &buff)
+
+	return buff.String()
+}
+
+func writeTreeText(tree antlr.Tree, buff *strings.Builder) {
+	if terminal, ok := tree.(antlr.TerminalNode); ok {
+		buff.WriteString(terminal.GetText())
+
+		return
+	}
+	for _, child := range tree.GetChildren() {
+		writeTreeText(child, buff)
+	}
 }
 
 // ExitExpression is called when production expression is exited.
